@@ -8,6 +8,7 @@ def Z_valid(cx, obj):
 
 # =========================================================================== U20
 class ImpedanceAddAssign(Contract):
+    replay = lambda self, o, model, pid: z_replay_spec(model)
     name = 'vfps::Impedance::operator+='
     tu = 'src/Z/Impedance.cpp'
     params = ['rhs']
@@ -52,8 +53,14 @@ class ImpedanceAddAssign(Contract):
 
 
 # =========================================================================== U19 models
+def z_replay_spec(model):
+    ns = [v for k, v in model.items() if k in ('arg:n',) and isinstance(v, int) and 2 <= v <= 4096]
+    return {'harness': 'ef_replay', 'runs': [['z', n] for n in (ns + [7, 8, 9, 255, 256, 257])]}
+
+
 class CalcImpedanceBase(Contract):
     """common shape: exactly n samples, zero above n/2, non-negative real part (C16)"""
+    replay = lambda self, o, model, pid: z_replay_spec(model)
     tags = {'C16', 'C17'}
     ghosts = {'k': 'int'}
     nname = 'n'
